@@ -340,8 +340,8 @@ func c10Run(cs c10Case) []c10Issue {
 			if !wroteBefore(pos) && r.Code != 500 {
 				bad("recovered-response", "panic at %s before any output: client sees %s, expected the default handler's status 500", pos, r.key())
 			}
-			if !strings.Contains(r.Body, fmt.Sprint(val)) {
-				bad("recovered-response", "panic at %s: body %q does not contain what the default recover handler reports (%v)", pos, r.Body, val)
+			if n := strings.Count(r.Body, fmt.Sprint(val)); n != 1 {
+				bad("recovered-response", "panic at %s: body %q names the panic value (%v) %d times, expected exactly once (the default recover handler reports this panic, and only this one)", pos, r.Body, val, n)
 			}
 		}
 	}
@@ -426,7 +426,7 @@ func c10Cases(tier string) []c10Case {
 	}
 	rec(nil)
 	for _, seq := range seqs {
-		for _, recov := range []string{"off", "custom"} {
+		for _, recov := range []string{"off", "custom", "default"} {
 			for _, serve := range []bool{false, true} {
 				out = append(out, c10Case{Shape: sh, Seq: seq, Val: "error", Recovery: recov, Enc: "gzip", Provider: "bounded1", Serve: serve})
 			}
